@@ -31,6 +31,11 @@ claim("C20",
  "symbolic execution of go/ssa with goroutines; schedules, failure counts and end events as explored decisions (delay-bounded scheduler); mostly control nondeterminism, the solver decides the symbolic base height",
  "DESIGN.md 6/C20")
 
+claim("C11",
+ "Differential bounded symbolic model checking of the real retrieval loop and share parser against a constructive reference layout: for every namespace run of up to 4 (quick) / 6 (thorough) shares made of padding shares and blobs of 1..3 shares (symbolic 32-bit sequence lengths, share version 0/1), starting at any column of ODS rows of width 2 or 4, listing returns exactly the reference blobs in order with the index of their first share, and fetching by an arbitrary commitment finds the first matching blob iff one is in the block, else ErrBlobNotFound.",
+ "symbolic execution of go/ssa + SMT; differential oracle (reference walk); ParseBlobs/CreateCommitment replaced by identity stubs",
+ "DESIGN.md 6/C11")
+
 claim("C13",
  "Bounded model checking of the real coordinator/worker code at quiescence: every started job has reported, catch-up-done holds exactly when nothing is queued, in flight or failed (including right after resume), every height is sampled or recorded failed, statistics agree with the ghost record of sampled heights, worker counts respect limit / 2x limit, and the back-off attempt count increases by one with a delay that saturates at the last interval for every attempt count 0..8 and every instant.",
  "symbolic execution of go/ssa with schedules as decisions + SMT; unbounded liveness replaced by bounded quiescence statements",
